@@ -82,6 +82,7 @@ type PNG struct {
 	IDAT      []byte
 	Post      []Chunk // chunks after IDAT, before IEND
 	NoIEND    bool
+	NoIDAT    bool // leave the image data chunk out (the file goes from its last pre-IDAT chunk to IEND)
 }
 
 // LegalPNG lists every legal (colour type, bit depth) pair.
@@ -190,7 +191,9 @@ func (p PNG) Bytes() ([]byte, *Map) {
 		}
 	}
 	idatOff := b.Len()
-	appendChunk(&b, m, "IDAT", p.IDAT)
+	if !p.NoIDAT {
+		appendChunk(&b, m, "IDAT", p.IDAT)
+	}
 	m.Marks["idatHeaderEnd"] = idatOff + 8
 	if iccEnd >= 0 {
 		m.Marks["needEnd"] = iccEnd
